@@ -55,7 +55,7 @@ theorem StepS.drop_xf {xi d} {a a2 b : Sk} {fd : Nat} (h1 : StepS none xi d a a2
   have h := (h1.weaken (xf' := some fd) (Or.inl rfl) (Or.inr rfl) (fun _ => Nat.le_refl _)).trans h2
   exact ⟨h.faults, h.kMono, h.keyMono, h.idxNew,
     fun fd' q hm _ => h.unl fd' q hm (fun he => hl q (by rw [← Option.some.inj he]; exact hm)),
-    h.orphan, h.debtAlive⟩
+    h.orphan, h.debtAlive, h.prog⟩
 
 theorem not_unlinked_of_hasConn {a : Sk} {hole} {fd : Nat} (hw : WfS a hole) (hh : a.hasConn fd false) :
     ∀ q, (fd, true, q) ∉ a.cFUQ := by
@@ -111,8 +111,12 @@ theorem good_closeConn {go} (hgo : GoOk go) {d fd st s} (hpre : Pre d s (.closeC
   rcases hgo.2 d (.closeLoop fd st) s2 ⟨by unfold Wf; rw [hsk2]; exact wf_mark hw hcm,
     by rw [hsk2, ← hfd]; exact hasConn_mark hcm, by rw [hsk2]; exact debt_mark hd⟩ with hoof | hg
   · exact Or.inl hoof
-  refine Or.inr ⟨hg.wf, hg.debt, ?_, trivial⟩
-  exact StepS.drop_xf (a2 := s2.sk) (by rw [hsk2]; exact step_mark) hg.step (not_unlinked_of_hasConn hw hh)
+  refine Or.inr ⟨hg.wf, hg.debt, ?_, ?_⟩
+  · exact StepS.drop_xf (a2 := s2.sk) (by rw [hsk2]; exact step_mark) hg.step (not_unlinked_of_hasConn hw hh)
+  · intro hidx
+    have h2 := hg.post (by rw [hsk2]; exact hidx)
+    rw [hsk2, ← hfd, mark_cFUQ_filter] at h2
+    rw [← hfd]; exact h2
 
 /-! ### `closeLoop` -/
 
@@ -156,9 +160,11 @@ theorem good_closeLoop {go} (hgo : GoOk go) {d fd st s} (hpre : Pre d s (.closeL
     rcases hgo.2 d (.closeLoop fd st) s2
       ⟨Wf.of_sk_eq hsk2 hg1.wf, by rw [hsk2]; exact ⟨q1, hq1⟩, by rw [hsk2]; exact hg1.debt⟩ with hoof2 | hg2
     · exact Or.inl hoof2
-    refine Or.inr ⟨hg2.wf, hg2.debt, ?_, trivial⟩
-    have h1 : StepS (some fd) none d s.sk s2.sk := by rw [hsk2]; exact hg1.step.weaken'
-    exact h1.trans hg2.step
+    refine Or.inr ⟨hg2.wf, hg2.debt, ?_, ?_⟩
+    · have h1 : StepS (some fd) none d s.sk s2.sk := by rw [hsk2]; exact hg1.step.weaken'
+      exact h1.trans hg2.step
+    · intro hidx
+      rw [hidx] at hki; cases hki
   · -- the list is empty: close the socket, release the connection
     rename_i hcq
     have hskX : ((((s.notify fd false false).modSock fd fun v => { v with isOpen := false }).emit
@@ -173,7 +179,12 @@ theorem good_closeLoop {go} (hgo : GoOk go) {d fd st s} (hpre : Pre d s (.closeL
     rw [hskX, ← hcfd] at hsk
     have hfd' : c.fd = c.sk.fd := rfl
     rw [hcfd] at hsk
-    refine Or.inr ⟨?_, ?_, ?_, trivial⟩
+    refine Or.inr ⟨?_, ?_, ?_, ?_⟩
+    rotate_left 3
+    · intro hidx
+      show Sk.cFUQ (St.sk _) = _ ∧ Sk.idx (St.sk _) = _
+      rw [hsk, ← hcfd, hfd']
+      exact ⟨removeConn_cFUQ, hidx⟩
     · show Wf _
       unfold Wf; rw [hsk, ← hcfd, hfd']; exact wf_removeConn hw hcm hcu hcq
     · show DebtOk none d _
